@@ -168,6 +168,16 @@ pub trait HasHost {
 
 pub const UNIQUE_BASE: i32 = 1_000_000;
 
+/// Make every answer of the script's resolve callback compact the store first (BasicGarnishData; inert elsewhere).
+pub fn compact_in_resolve(script: &mut HostScript) {
+    let wrap = |a: Answer| if matches!(a, Answer::Compact(_)) { a } else { Answer::Compact(Box::new(a)) };
+    let d = script.resolve_default.clone().unwrap_or(Answer::Decline);
+    script.resolve_default = Some(wrap(d));
+    for (_, a) in script.resolve.iter_mut() {
+        *a = wrap(a.clone());
+    }
+}
+
 /// Carry out an answer: returns Ok(true)/Ok(false)/Err as the callback's result and the value given.
 fn perform<D: GD + HasHost>(data: &mut D, answer: &Answer) -> Result<(bool, Option<Val>), DataError> {
     match answer {
